@@ -12,7 +12,8 @@ use crate::tb::{self, Table, Val};
 use crate::zobrist::ZobristHasher;
 use std::sync::atomic::{AtomicU64, AtomicUsize, Ordering};
 
-const TRIANGLE: [u8; 10] = [0, 1, 2, 3, 9, 10, 11, 18, 19, 27];
+// quick tier: white king in the a1-d4 quarter of the board (16 squares)
+const TRIANGLE: [u8; 16] = [0, 1, 2, 3, 8, 9, 10, 11, 16, 17, 18, 19, 24, 25, 26, 27];
 
 pub fn fresh_root(pos: &Pos, h: &ZobristHasher) -> Root {
     let board = board_of_pos(pos, h);
@@ -363,7 +364,7 @@ pub fn explore_c11(rep: &Report, finish: bool) -> i32 {
     rep.add("info_lines_checked", infos_n.load(Ordering::Relaxed));
     rep.assume("retrograde tables over the rules oracle are exact (validated by the well-known maxima 10 / 16 moves and by forward search at distance <= 2)");
     rep.assume("an info line inside an iteration states the value of the move it names first; the last line of an iteration is the iteration's verdict on the root");
-    let rule = format!("every legal non-terminal position of the complete KQK and KRK families{} searched by the real get_best_move to the end of iteration {}; every info line judged against exact distance-to-mate tables", if quick { " with the white king in the a1-d1-d4 triangle" } else { "" }, depth);
+    let rule = format!("every legal non-terminal position of the complete KQK and KRK families{} searched by the real get_best_move to the end of iteration {}; every info line judged against exact distance-to-mate tables", if quick { " with the white king in the a1-d4 quarter" } else { "" }, depth);
     let rule = format!("{}; plus the back-rank family (kings behind three pawns, one rook each on any back-rank file a-f, one loose black knight/bishop/pawn on any square of ranks 3-6, both sides to move{}) searched to iteration {}: mate in one played, no blunder into mate in one handed back once iteration 2 has finished", rule, if quick { ", every 5th position" } else { "" }, if quick { 3 } else { 4 });
     let rule = format!("{}; plus every clock-expiry index after the end of iteration 1 on {} roots with a mate in one: the move held always mates", rule, sweep_roots.len());
     if finish {
@@ -415,7 +416,7 @@ fn c12_roots(rep: &Report, h: &ZobristHasher) -> Vec<Root> {
     let mut roots: Vec<Root> = Vec::new();
     for (_, extra) in [("KQK", vec![rules::pc(rules::WHITE, rules::Q)]), ("KRK", vec![rules::pc(rules::WHITE, rules::R)])] {
         let t = tb::build(&extra, threads());
-        let stride = if quick { 40 } else { 3 };
+        let stride = if quick { 20 } else { 3 };
         for (i, p) in t.positions.iter().enumerate() {
             if !t.children[i].is_empty() && i % stride == 0 {
                 roots.push(fresh_root(p, h));
